@@ -42,7 +42,16 @@ def progress_edges(g, x):
         if la and lb:
             pa = set().union(*[a.paths for a in la])
             pb = set().union(*[a.paths for a in lb])
-            if pa == pb and {a.nid for a in la} != {a.nid for a in lb}:
+            # ... of the same quantity: an observation compared with an *index* derived from the other one (`count & mask`)
+            # differs for ever once the count has passed the capacity - that "change" is no progress of anybody
+            def _plain(e_):
+                for s_ in g.walk(e_):
+                    if s_[0] == 'bin' and not (s_[1] == 'BitAnd' and any(g.strip(o_)[0] == 'c' and str(g.strip(o_)[1]) == '9223372036854775807' for o_ in (s_[2], s_[3]))):
+                        return False
+                    if s_[0] == 'fld' and s_[2] == 'CountedIndex.mask':
+                        return False
+                return True
+            if pa == pb and {a.nid for a in la} != {a.nid for a in lb} and _plain(t_.a) and _plain(t_.b):
                 for ed in t_.false:
                     out.add(ed)
                     kinds[ed] = 'revalidation'
